@@ -163,6 +163,17 @@ def check_metamodule(res, c):
     cl = m.clone()
     for path, a, b in snapshot.diff(S_syn, build.norm_module(snapshot.snap_module(cl, "synth"), "after"))[:3]:
         res.violation(f"C15:clone:{snapshot.field_key(path)}", f"clone {path}: original {a}, clone {b}", desc)
+    if c.index % 2 == 1:
+        # the same file as another writer might lay it out: the MetaModule's own chunks (project, mappings, options, names) in
+        # another order, at every nesting level
+        from . import c04
+        from ..runner import Result
+        import random as _r
+        scratch = Result()
+        c04.edits_permute_groups(scratch, "written MetaModule", raw, snapshot.snap_synth(s2), desc, _r.Random(c.index))
+        res.count("chunk_order_variants", scratch.counters.get("chunk_group_permutations", 0))
+        for v in scratch.violations:
+            res.violation(v["key"].replace("C04:", "C15:", 1), v["what"], v.get("case"))
     if c.index % 3 == 0 and len(raw) < 40000:
         siblings(res, m, desc)
     recount(res, m, desc)
@@ -288,6 +299,41 @@ def unmap(res, m, desc):
                       f"in memory and {after[i]} after save/load", desc)
 
 
+def constructor_count(res, rng, k):
+    """The count given as a CONSTRUCTOR keyword (directly or through new_module) and never assigned afterwards: exactly the
+    first n controllers are exposed and written, in a project as well as stand-alone."""
+    import rv.api as api
+    for j in range(k):
+        n = rng.choice([1, 2, 3, 27, 95, 96])
+        how = ("constructor", "new_module")[j % 2]
+        inner = api.Project()
+        amp = inner.new_module(api.m.Amplifier)
+        outer = api.Project()
+        if how == "constructor":
+            mm = api.m.MetaModule(project=inner, user_defined_controllers=n)
+            outer.attach_module(mm)
+        else:
+            mm = outer.new_module(api.m.MetaModule, project=inner, user_defined_controllers=n)
+        mm.mappings.values[0] = mm.Mapping((amp.index, 0))
+        mm.user_defined[0].label = "vol"
+        desc = {"scenario": "count-by-constructor-keyword", "n": n, "how": how}
+        res.case(("constructor-count", n, how))
+        res.count("constructor_keyword_counts")
+        S = snapshot.snap_module(mm, "project")
+        if S["payload"]["attached_user_controllers"] != list(range(n)):
+            res.violation("C15:attached-set", f"{how}: count {n} given as keyword, attached user controllers are {S['payload']['attached_user_controllers'][:6]}...", desc)
+            continue
+        try:
+            structural(res, outer.read(), S, "project", desc)
+            q = workload.load(outer.read())
+        except Exception as e:
+            res.violation(f"C15:project-unloadable:{workload.exc_key(e)}", f"{how}: project with MetaModule(user_defined_controllers={n}) does not save/load: {e!r}", desc)
+            continue
+        S2 = snapshot.snap_module(q.modules[mm.index], "project")
+        if S2["payload"]["count"] != n or S2["payload"]["attached_user_controllers"] != list(range(n)):
+            res.violation("C15:project:/payload/count", f"{how}: count {n} loads back as {S2['payload']['count']} with attached {S2['payload']['attached_user_controllers'][:6]}", desc)
+
+
 def failed_save_then_fixed(res, m, desc):
     """A save that fails half way (a field of the innermost embedded project holds something unwritable) leaves nothing
     behind: once the field is put right, saving works and gives the bytes it gave before."""
@@ -408,6 +454,7 @@ def run_shard(spec_, res):
                         "labels": S["payload"]["labels"], "embedded_modules": [None if m is None else m["type"] for m in S["payload"]["project"]["modules"]]})
     import random as _random
     nested_repoint(res, _random.Random(spec_["seed"] * 31 + spec_["shard"]), 40 if spec_["tier"] == "quick" else 400)
+    constructor_count(res, _random.Random(spec_["seed"] * 37 + spec_["shard"]), 12 if spec_["tier"] == "quick" else 60)
     for name, msg in monitors.take_failures():
         res.violation(f"C15:ambient:{name}", msg, {"monitor": name})
     res.exhaustive = True
